@@ -10,6 +10,7 @@
  * PATENTS file, you can obtain it at https://www.aomedia.org/license/patent-license.
  */
 
+#include "EbVerifHooks.h"
 #include <stdio.h>
 #include <stdlib.h>
 #include <string.h>
@@ -523,7 +524,11 @@ void svt_cdef_sb_row_mt(EbDecHandle *dec_handle, int32_t *mi_wide_l2, int32_t *m
             if (sb_fbc == pic_width_in_sb - 1)
                 nsync = 0;
             while (*cdef_completed_in_prev_row < (sb_fbc + nsync))
+#ifdef SVT_AV1_VERIF
+                SVT_VERIF_SPIN();
+#else
                 ;
+#endif
             //Sleep(5); /* ToDo : Change */
         }
         /*Curr multi thread implementation of cdef goes through every SB SIZE row*/
